@@ -1,4 +1,97 @@
-/- Model driver for C18 (stub: not built yet). -/
+/-
+Model driver for C18 (lean/Osmium/Model/Tile.lean with rnd := rne53 and the constants
+regenerated from the source, lean/Osmium/Generated/C18Consts.lean).  Doubles come in as 16-digit
+hex bit patterns and go out as "m e" (value m*2^e, m odd).  Ops (same as harness/c18.cpp):
+  ext z | tx z xbits | ty z ybits | tile z xbits ybits | tloc z lon lat xbits ybits
+  txyz z tx ty | lonx lon | xlon xbits | rtx lon
+A result that involves undefined behaviour is printed as "ub|<what the x86-64 build returns>".
+-/
+import Osmium.Model.Tile
+import Osmium.Generated.C18Consts
 import Driver.Common
 
-def main : IO Unit := pure ()
+open Osmium.Tile Osmium.Generated.C18 Driver
+
+def finOr0 : EVal → Rat
+  | .fin q => q
+  | _ => 0
+
+def cfg : Cfg := { M := finOr0 (EVal.ofBits mBits), rnd := rne53, fixed := fixedVariant }
+
+def pcfg : ProjCfg :=
+  { rnd := rne53, R := finOr0 (EVal.ofBits rBits), degToRad := finOr0 (EVal.ofBits degToRadBits),
+    radToDeg := finOr0 (EVal.ofBits radToDegBits), prec := (prec : Nat) }
+
+def parseHex (s : String) : Option Nat :=
+  if s.isEmpty then none else
+  s.toList.foldl (fun acc c => do
+    let a ← acc
+    let d ← hexDigit c
+    pure (a * 16 + d)) (some 0)
+
+def parseBits (s : String) : Option EVal := (parseHex s).map EVal.ofBits
+
+/-- strict result + x86 result → output text -/
+def showR (strict : Except Err String) (x86 : String) : String :=
+  match strict with
+  | .ok s => s
+  | .error .ub => "ub|" ++ x86
+  | .error .invalidLocation => "invalid_location"
+
+def tileStr (t : Tile) : String := s!"{t.x} {t.y} {t.z} {b01 t.valid}"
+
+def tileX86 (z : Nat) (x y : EVal) : Tile :=
+  if cfg.fixed then
+    -- repaired variant: no UB possible, never used
+    ⟨0, 0, z⟩
+  else ⟨mercxToTilexX86 cfg z x, mercyToTileyX86 cfg z y, z⟩
+
+def step (line : String) : String :=
+  match words line with
+  | ["ext", z] =>
+    match z.toNat? with
+    | some z => s!"{canonDyadic (tileExtentInZoom cfg z)} {numTilesInZoom z}"
+    | none => "bad-op"
+  | ["tx", z, xb] =>
+    match z.toNat?, parseBits xb with
+    | some z, some x => showR ((mercxToTilex cfg z x).map toString) (toString (mercxToTilexX86 cfg z x))
+    | _, _ => "bad-op"
+  | ["ty", z, yb] =>
+    match z.toNat?, parseBits yb with
+    | some z, some y => showR ((mercyToTiley cfg z y).map toString) (toString (mercyToTileyX86 cfg z y))
+    | _, _ => "bad-op"
+  | ["tile", z, xb, yb] =>
+    match z.toNat?, parseBits xb, parseBits yb with
+    | some z, some x, some y => showR ((Tile.ofCoords cfg z x y).map tileStr) (tileStr (tileX86 z x y))
+    | _, _, _ => "bad-op"
+  | ["tloc", z, lon, lat, xb, yb] =>
+    match z.toNat?, lon.toInt?, lat.toInt?, parseBits xb, parseBits yb with
+    | some z, some lon, some lat, some x, some y =>
+      -- the projection functions are parameters of the model: here the table {lon ↦ x}, {lat ↦ y}
+      showR ((Tile.ofLoc cfg (fun _ => x) (fun _ => y) z lon lat).map tileStr) (tileStr (tileX86 z x y))
+    | _, _, _, _, _ => "bad-op"
+  | ["txyz", z, tx, ty] =>
+    match z.toNat?, tx.toInt?, ty.toInt? with
+    | some z, some tx, some ty => tileStr (Tile.ofXY z tx ty)
+    | _, _, _ => "bad-op"
+  | ["lonx", lon] =>
+    match lon.toInt? with
+    | some lon => canonDyadic (lonToX pcfg lon)
+    | none => "bad-op"
+  | ["xlon", xb] =>
+    match parseBits xb with
+    | some x => (xToLonE pcfg x).canon
+    | none => "bad-op"
+  | ["rtx", lon] =>
+    match lon.toInt? with
+    | some lon =>
+      match xToLonE pcfg (.fin (lonToX pcfg lon)) with
+      | .fin l =>
+        match doubleToFix pcfg l with
+        | .ok v => toString v
+        | .error _ => "ub"
+      | _ => "ub"
+    | none => "bad-op"
+  | _ => "bad-op"
+
+def main : IO Unit := loopPure step
